@@ -674,7 +674,7 @@ func init() {
 		if viaAPI {
 			name, qb, tb = "S-message-flood-api", 0, 2
 		}
-		registerBoth(name, []string{"C14", "C15"}, 1, qb, tb, func(x *X, cancel bool) {
+		registerBoth(name, []string{"C14", "C15", "C12"}, 1, qb, tb, func(x *X, cancel bool) {
 			n := newNode(x, 0)
 			n.BlockReq[1] = true
 			n.Boot()
@@ -700,6 +700,7 @@ func init() {
 			s.NoBranch = false
 			if fed != want {
 				x.Bad("C14", "api-blocked", "HandleConsensusMessage blocked after %d of %d messages while the worker is busy and its queue is full: the main loop waits for the worker; blocked=%v", fed, want, s.Blocked())
+				x.Bad("C12", "node-wedged-by-message-burst", "after %d of %d (valid, repeated) consensus messages the node no longer takes messages, elections or syncs: the main loop waits for the busy worker's full queue", fed, want)
 				finish(x, n, nil, "")
 				return
 			}
@@ -720,6 +721,7 @@ func init() {
 			if !cancel {
 				if !synced || !late {
 					x.Bad("C14", "updatestate-blocked-or-failed", "after a message flood: UpdateState returned=%v, HandleConsensusMessage returned=%v; blocked=%v", synced, late, s.Blocked())
+					x.Bad("C12", "node-wedged-by-message-burst", "after a burst of more messages than the worker's queue holds: UpdateState returned=%v, HandleConsensusMessage returned=%v", synced, late)
 				}
 				for _, c := range n.SpiCalls {
 					if !c.Returned && c.Height == 1 {
